@@ -1131,6 +1131,15 @@ class _ExprCanon(ast.NodeTransformer):
                 n.args = [a.args[0]]
         return n
 
+    def visit_Subscript(self, n):
+        self.generic_visit(n)
+        # {"k": e, ...}["k"]  ->  e
+        if isinstance(n.ctx, ast.Load) and isinstance(n.value, ast.Dict) and isinstance(n.slice, ast.Constant) and all(isinstance(k, ast.Constant) for k in n.value.keys) and not any(_impure(v) for v in n.value.values):
+            hits = [v for k, v in zip(n.value.keys, n.value.values) if k.value == n.slice.value and type(k.value) is type(n.slice.value)]
+            if len(hits) == 1:
+                return hits[0]
+        return n
+
     def visit_BinOp(self, n):
         self.generic_visit(n)
         if isinstance(n.op, ast.Add):
@@ -1806,6 +1815,8 @@ def _pure_callee(c: ast.Call) -> bool:
             return True
         return f.id in _PURE_FUNCS and not f.id[:1].isupper()
     if isinstance(f, ast.Attribute):
+        if f.attr in ("update", "extend") and not (isinstance(f.value, ast.Name) and f.value.id == "self") and f.attr not in _REPO_FUNCS - {"update"}:
+            return True  # dict.update / list.extend copy the entries of their argument: it is only read
         if f.attr in MUTATORS and f.attr not in PANDAS_PURE:
             return False
         if f.attr in _REPO_FUNCS and f.attr not in _LIB_PURE_METHODS:
